@@ -146,23 +146,40 @@ Definition union_unnamed (S : fschema) (ks : list nat) (key : ukey) : option (Z 
   | _ => None
   end.
 
-(* names a variant registers, in insertion order *)
+(* the names the deserializer reports for a variant (per_name), in insertion order *)
 Definition variant_names (n : fnode) : list bytes :=
   (match gen_type_name (kind_of n) with Some t => [t] | None => [] end) ++
+  (match n with
+   | FDecimal _ _ None => match gen_decimal_bytes_type_name with Some t => [t] | None => [] end
+   | _ => []
+   end) ++
   (match gen_register_name (kind_of n), n with
-   | RnName, FRecord nm _ | RnName, FEnum nm _ | RnName, FFixed nm _ => [name_short nm; nm_full nm]
-   | RnDecimalFixedName, FDecimal _ _ (Some (nm, _)) => [name_short nm; nm_full nm]
+   | RnName, FRecord nm _ | RnName, FEnum nm _ | RnName, FFixed nm _ => [nm_full nm]
+   | RnDecimalFixedName, FDecimal _ _ (Some (nm, _)) => [nm_full nm]
    | _, _ => []
    end).
 
-Fixpoint named_entries_from (S : fschema) (ks : list nat) (disc : Z) : list (bytes * (Z * nat)) :=
+(* convenience names (per_alias): never take precedence over the actual name of a variant *)
+Definition variant_aliases (n : fnode) : list bytes :=
+  (match n with
+   | FDecimal _ _ (Some _) => match gen_decimal_fixed_type_alias with Some t => [t] | None => [] end
+   | _ => []
+   end) ++
+  (match gen_register_name (kind_of n), n with
+   | RnName, FRecord nm _ | RnName, FEnum nm _ | RnName, FFixed nm _ => [name_short nm]
+   | RnDecimalFixedName, FDecimal _ _ (Some (nm, _)) => [name_short nm]
+   | _, _ => []
+   end).
+
+Fixpoint named_entries_from (names_of : fnode -> list bytes) (S : fschema) (ks : list nat) (disc : Z)
+  : list (bytes * (Z * nat)) :=
   match ks with
   | [] => []
   | k :: t =>
       (match fnode_at S k with
-       | Some n => map (fun nm => (nm, (disc, k))) (variant_names n)
+       | Some n => map (fun nm => (nm, (disc, k))) (names_of n)
        | None => []
-       end) ++ named_entries_from S t (disc + 1)%Z
+       end) ++ named_entries_from names_of S t (disc + 1)%Z
   end.
 
 Fixpoint assoc_last (x : bytes) (l : list (bytes * (Z * nat))) (acc : option (Z * nat)) : option (Z * nat) :=
@@ -171,9 +188,12 @@ Fixpoint assoc_last (x : bytes) (l : list (bytes * (Z * nat))) (acc : option (Z 
   | (k, v) :: t => assoc_last x t (if bytes_eqb x k then Some v else acc)
   end.
 
-(* PerTypeLookup::named *)
+(* PerTypeLookup::named: HashMap insert = last wins; aliases only fill the gaps *)
 Definition union_named (S : fschema) (ks : list nat) (nm : bytes) : option (Z * nat) :=
-  assoc_last nm (named_entries_from S ks 0%Z) None.
+  match assoc_last nm (named_entries_from variant_names S ks 0%Z) None with
+  | Some v => Some v
+  | None => assoc_last nm (named_entries_from variant_aliases S ks 0%Z) None
+  end.
 
 (* per_name_lookup of records and enums: HashMap collect, last insert wins *)
 Definition field_index (fields : list (bytes * nat)) (nm : bytes) : option nat :=
